@@ -82,6 +82,24 @@ CLAIMED = {
             'Same histories as C16; the socket byte stream is framed independently and for every new application message Persister::get(n) must return exactly the transmitted bytes, '
             'for every administrative message number it must fail; probed before every restart and at the end.',
             'Retransmissions and gap-fills are not new messages; numbers never used are not probed.', '4/C17 and 10.7'),
+    'C18': ('E1', 'exploration', 'property-based testing (Hypothesis): coverage-walk oracle over the reply stream of generated stores and request ranges',
+            'A sending history (application messages = stored, administrative replies = holes; memory, file or no persister; initiator and acceptor; both FIX versions) is produced through the '
+            'real session, then a ResendRequest [B,E] inside the sent range is fed and the reply stream is walked with a cursor: replayed messages must carry their number, PossDupFlag=Y, '
+            'OrigSendingTime = original SendingTime and the original content; gap-fills must start at the cursor and skip no stored message of the range; nothing else may be sent; the range '
+            'must be covered; the session must be continuous again and the next new message numbered max(last+1, cursor). A second request checks that the session answers again.',
+            'Ranges beyond what was sent are not generated; a gap-fill may extend over numbers that were not requested.', '4/C18 and 10.7'),
+    'C19': ('E1', 'exploration', 'property-based testing (Hypothesis): generated inbound probes in four session states against a protocol model of the expected number',
+            'Probes (number equal/lower/higher, PossDupFlag, OrigSendingTime, CompIDs, "34=" look-alikes in header sub-IDs, corrupt variants) are fed to a real session brought into continuous, '
+            'resend-request-sent, test-request-sent or logon-sent state through real traffic; delivery, ResendRequest, Logout and Reject are checked as implications of the statement.',
+            'One open known finding (higher number while a TestRequest is pending ends the session): class excluded by construction and counted, reproducer replayed on every run.', '4/C19 and 10.7'),
+    'C22': ('E1', 'exploration', 'model-based property-based testing (Hypothesis) on a virtual clock: generated timelines against a supervision model, two-model oracle for the open finding',
+            'Timelines of clock advances (ms resolution, biased to the H and 1.2H boundaries), supervision ticks (the real heartbeat_service), sends and inbound traffic for H in 1..120; at every '
+            'tick the outbound messages are compared with what the model demands (Heartbeat, TestRequest, Logout+termination) and forbids (Logout before the TestRequest had its period).',
+            'Whole-second tolerance of the supervisor accepted; open known finding (Logout one tick after the TestRequest, pinned by the repository\'s own unit test) decided with the defective model.', '4/C22 and 10.7'),
+    'C23': ('E1', 'exploration', 'property-based testing (Hypothesis): generated logon configurations (acceptor, initiator) and SessionID pairs against the stated acceptance rules and comparison laws',
+            'Acceptor: CompID enforcement, client lists, TargetCompID right/wrong, HeartBtInt echo, ResetSeqNumFlag with and without stored numbers; initiator: mirrored / partly wrong Logon responses; '
+            'SessionID == / != over all equal/unequal combinations of the two CompIDs, built from parts and from the id string.',
+            'No SessionConfig object (persister handed in, as the unit tests do); client entries without IP restriction.', '4/C23 and 10.7'),
 }
 
 
